@@ -208,7 +208,7 @@ def _dec(x):
 def h_hist(init_mask: int, cache_state: int, o0: int, o1: int, o2: int, o3: int, n: int, peek: bool):
     assert 0 <= init_mask < 16 and 0 <= cache_state <= 4 and 0 <= o0 < NOPS and 0 <= o1 < NOPS and 0 <= o2 < NOPS and 0 <= o3 < NOPS and 1 <= n <= 4 and part_ok(o0)
     assert (n >= 2 or o1 == 0) and (n >= 3 or o2 == 0) and (n >= 4 or o3 == 0)
-    assert n <= (2 if tier() == "quick" else 3) or (tier() != "quick" and init_mask == 5 and cache_state == 4)
+    assert n <= 2 or (tier() != "quick" and not peek and ((n == 3 and init_mask == 5 and cache_state in (0, 4)) or (n == 4 and init_mask == 5 and cache_state == 4 and max(o0, o1, o2, o3) < 15)))   # sized to ~15 min on 16 cores
     assert not peek or (cache_state in (1, 4) and init_mask in (1, 5))
     assert init_mask in (0, 1, 5, 6, 15)      # representative initial subsets: none, one, two non-adjacent, two adjacent, all
     fresh_path()
